@@ -2,6 +2,8 @@
 B = "acnportal.acnsim.models.battery."
 E = "acnportal.acnsim.models.ev."
 S = "acnportal.acnsim.models.evse."
+EVT = "acnportal.acnsim.events.event."
+EQ = "acnportal.acnsim.events.event_queue.EventQueue."
 
 TRUSTED_COMMON = [
     "A-REAL: Python float / numpy float64 arithmetic is treated as exact real arithmetic; int is unbounded",
@@ -19,7 +21,7 @@ BATTERY_FNS = [B + "Battery.__init__", B + "Battery.charge", B + "Battery.reset"
                B + "Linear2StageBattery._charge", B + "Linear2StageBattery._charge_stepwise"]
 SET_PILOT = [S + "BaseEVSE.set_pilot@EVSE", S + "BaseEVSE.set_pilot@DeadbandEVSE", S + "BaseEVSE.set_pilot@FiniteRatesEVSE"]
 
-SHARDS = {B + "Linear2StageBattery._charge": 6, B + "Linear2StageBattery._charge_stepwise": 2}
+SHARDS = {EQ + "get_current_events": 8, EQ + "add_events": 3, EQ + "__init__": 3, B + "Linear2StageBattery._charge": 6, B + "Linear2StageBattery._charge_stepwise": 2}
 
 EVSE_FNS = [S + x for x in (
     "BaseEVSE.__init__", "EVSE.__init__", "DeadbandEVSE.__init__", "FiniteRatesEVSE.__init__",
@@ -77,6 +79,30 @@ PLAN = {
         note="no obligation is proved for C05 yet; bounded by the scenario space written in the evidence",
         explanation="bounded run-time contract monitor only (rt.simcheck clauses C05.*)",
         technique="run-time contract monitor on the real functions (bounded stand-in); deductive obligations pending",
+    ),
+    "C11": dict(
+        level="other",
+        functions=[EVT + x for x in ("Event.__init__", "Event.__lt__", "EVEvent.__init__", "PluginEvent.__init__", "UnplugEvent.__init__",
+                                     "RecomputeEvent.__init__")]
+                  + [EQ + x for x in ("__init__", "__len__", "empty", "add_event", "add_events", "get_event", "get_current_events",
+                                      "get_last_timestamp")],
+        bounded=[dict(module="rt.fnmon", fn="queue_monitor", label="queue operation sequences incl. JSON round trip against the pending-set model")],
+        text="PROVED (all queue contents, all interleavings by induction over calls, no bound): every EventQueue method is verified "
+             "from its source against a postcondition over the whole pending multiset (bag): add_event/add_events add exactly the given "
+             "events, get_event removes and returns a time-then-precedence minimal pending event, get_current_events(t) returns exactly "
+             "the pending events with timestamp <= t, sorted by time then precedence, and leaves exactly the later ones (loop invariant + "
+             "termination measure), len/empty/get_last_timestamp are functions of the pending set; the representation invariant (heap "
+             "order, stored timestamp = event timestamp) is preserved by every method; the event constructors pin precedence 0/10/20. "
+             "BOUNDED: the JSON round trip (reflective serialiser) - restored queue has the same heap array and behaves identically - "
+             "is monitored over seeded operation sequences.",
+        note="heapq.heappush/heappop are assumed contracts (heap invariant, bag update, minimum at index 0); Python's tuple order on "
+             "(timestamp, event) is modelled as time, then identity, then Event.__lt__ (itself proved); events are not mutated while queued",
+        explanation="proved: all EventQueue methods and event constructors (pyvc); bounded: JSON round trip and whole-sequence behaviour (rt.fnmon.queue_monitor)",
+        technique="contract-based deductive verification over a multiset abstraction of the heap (pyvc, z3) + bounded run-time monitor for the JSON round trip",
+        trusted=["heapq axioms (A-LIB): heappush/heappop preserve the heap invariant, update the multiset by exactly the pushed/popped element, "
+                 "heappop returns index 0, a heap's index 0 is minimal under Python's tuple order",
+                 "cnt (multiplicity in a list prefix) is defined by recursion on the prefix length; list.append extends it (A-LIB)",
+                 "A-INF: float('inf') stored in a real-sorted field is a constant > 1e30"],
     ),
     "C13": dict(
         level="proof",
